@@ -119,9 +119,9 @@ Definition powmod2 (a n : Z) (md : option Z) : res Z :=
   else if n <? 0 then
     match md with
     | None => ValueErr
-    | Some b => bind (invert2 a b) (fun a' => powmod2_pos a' md (Z.to_pos (- n)))
+    | Some b => bind (invert2 a b) (fun a' => bind (omod2 a' md) (fun ar => powmod2_pos ar md (Z.to_pos (- n))))
     end
-  else powmod2_pos a md (Z.to_pos n).
+  else bind (omod2 a md) (fun ar => powmod2_pos ar md (Z.to_pos n)).
 
 (** _deriv: a >>= 1; a &= 0b0101...01 *)
 Fixpoint mask01 (k : nat) : Z := match k with O => 0 | S k' => Z.shiftl (mask01 k') 2 + 1 end.
